@@ -308,6 +308,9 @@ class Model(SOCModel):
                 self.dual = formula
                 return formula
 
+            # dual rows of variables with a zero upper bound are negated by
+            # the linear layer: the blocks appended below must follow
+            neg_rows = primal.ub == 0
             if len(primal.qmat) == 0 or dual_socp.linear.shape[0] == pvar_num:
                 pxmat = primal.xmat
                 plmi = primal.lmi
@@ -323,6 +326,7 @@ class Model(SOCModel):
                             if i not in socp_idx]
                 sp_xmat = sp_xmat[:, keep_idx]
                 pxmat = [list(sp_xmat[i].indices) for i in range(num_exp)]
+                neg_rows = neg_rows[keep_idx]
 
                 for each in primal.lmi:
                     if each['linear'].shape[1] < pvar_num:
@@ -390,6 +394,9 @@ class Model(SOCModel):
                                 'dim': each_dim})
 
                 extra_block = sp.csr_matrix(sp.vstack(linear_list).T)
+                if neg_rows.any():
+                    flip = np.where(neg_rows, -1.0, 1.0)
+                    extra_block = sp.diags(flip) @ extra_block
 
                 linear = sp.hstack((linear, extra_block))
                 obj = np.hstack((const_list))
